@@ -196,7 +196,7 @@ void native_mixed(char const* desc)
 }
 
 // documented fixed-point kernels vs their hand-written shift-and-operate twins
-enum Kern { MULWIDEN, MIXADD, AVERAGE, SQUARE, INCDEC };
+enum Kern { MULWIDEN, MIXADD, AVERAGE, SQUARE, INCDEC, MIXCMP };
 template<class T, int E1, int E2, int K>
 void fixedpoint(char const* desc)
 {
@@ -222,6 +222,14 @@ void fixedpoint(char const* desc)
                 X sa = E1 > E2 ? shl(xa, sh) : xa, sb = E2 > E1 ? shl(xb, sh) : xb;
                 want = sa + sb; def = fits<P>(sa) && fits<P>(sb) && fits<P>(want); wexp = E1 < E2 ? E1 : E2;
             } else if (K == AVERAGE) { want = tdiv(xa + xb, X::from_u(2)); def = fits<P>(xa + xb); wexp = E1; }
+            else if (K == MIXCMP) {
+                // hand-written twin: align the coarser operand with a shift, then compare the ints (all six operators packed into one number)
+                constexpr int sh = E2 > E1 ? E2 - E1 : E1 - E2;
+                X sa = E1 > E2 ? shl(xa, sh) : xa, sb = E2 > E1 ? shl(xb, sh) : xb;
+                def = fits<P>(sa) && fits<P>(sb);
+                want = X::from_i((sa < sb) * 1 + (sa <= sb) * 2 + (sa > sb) * 4 + (sa >= sb) * 8 + (sa == sb) * 16 + (sa != sb) * 32);
+                wexp = 0;
+            }
             else { want = xa + shl(X::from_u(1), -E1); def = E1 <= 0 && fits<T>(want) && fits<P>(shl(X::from_u(1), -E1)); wexp = E1; }
             if (!def) { ++t.ood; continue; }
             X got;
@@ -234,6 +242,7 @@ void fixedpoint(char const* desc)
                 else if constexpr (K == SQUARE) { auto r = a * a; got = c01::deepval(r); gexp = cnl::_impl::tag_of_t<decltype(r)>::exponent; }
                 else if constexpr (K == MIXADD) { auto r = a + b; got = c01::deepval(r); gexp = cnl::_impl::tag_of_t<decltype(r)>::exponent; }
                 else if constexpr (K == AVERAGE) { auto r = (a + cnl::_impl::from_rep<A>(rb)) / 2; got = c01::deepval(r); gexp = cnl::_impl::tag_of_t<decltype(r)>::exponent; }
+                else if constexpr (K == MIXCMP) { got = X::from_i((a < b) * 1 + (a <= b) * 2 + (a > b) * 4 + (a >= b) * 8 + (a == b) * 16 + (a != b) * 32); gexp = 0; }
                 else {
                     A x = a;
                     A pre = ++x;
